@@ -237,9 +237,20 @@ for ci in range(ncase):
                 except Exception as e:
                     bad = f"simplify raised {type(e).__name__}: {str(e)[:80]}"
                 sg = list(range(n)); rng.shuffle(sg)
-                Mm = np.asarray(qp.matrix(qp.map_wires(op, {i: sg[i] for i in range(n)}), wire_order=wo))
-                if bad is None and not np.allclose(Mm, ref_num(maptree(t, sg), th, n), atol=1e-8):
+                mapped = qp.map_wires(op, {i: sg[i] for i in range(n)})
+                Mm = np.asarray(qp.matrix(mapped, wire_order=wo))
+                Rm = ref_num(maptree(t, sg), th, n)
+                if bad is None and not np.allclose(Mm, Rm, atol=1e-8):
                     bad = "map_wires"
+                if bad is None:
+                    # consumers of cached representations of the relabelled operator (a stale cache keeps the old wires)
+                    try:
+                        if not np.allclose(np.asarray(qp.matrix(qp.simplify(mapped), wire_order=wo)), Rm, atol=1e-8):
+                            bad = "simplify after map_wires"
+                    except qp.operation.MatrixUndefinedError:
+                        it.setdefault("kinds", []).append("simplify-no-matrix")
+                    except Exception as e:
+                        bad = f"simplify after map_wires raised {type(e).__name__}: {str(e)[:80]}"
             if bad:
                 it["numeric_fail"] = {"thetas": th, "what": bad, "operator": repr(op)[:200]}
                 break
@@ -314,5 +325,41 @@ for name, mk in _lc_cases():
             it["numeric_fail"] = {"what": f"simplify raised {type(e).__name__}: {str(e)[:80]}", "operator": repr(op)[:200]}
     except Exception as e:
         it["numeric_fail"] = {"what": f"raised {type(e).__name__}: {str(e)[:150]}"}
+# ---- wrappers with a cached Pauli representation, relabelled (numeric; every consumer of the relabelled operator must see the new wires)
+def _map_cases():
+    yield "sprod(.5, X0@Z1)", lambda: qp.s_prod(0.5, qp.X(0) @ qp.Z(1))
+    yield "pow(X0@Y1, 3)", lambda: qp.pow(qp.X(0) @ qp.Y(1), 3)
+    yield "adjoint(1j*Y1)", lambda: qp.adjoint(qp.s_prod(1j, qp.Y(1)))
+    yield "exp(.5*X0, .3j)", lambda: qp.exp(qp.s_prod(0.5, qp.X(0)), 0.3j)
+    yield "sum(X0, .5*Z1)", lambda: qp.sum(qp.X(0), qp.s_prod(0.5, qp.Z(1)))
+    yield "prod(X0, Y1)@Z2", lambda: qp.prod(qp.X(0), qp.Y(1)) @ qp.Z(2)
+    yield "sprod(2, adjoint(X0@Y2))", lambda: qp.s_prod(2.0, qp.adjoint(qp.X(0) @ qp.Y(2)))
+
+
+for name, mk in _map_cases():
+    for wm in ({0: 1, 1: 0, 2: 2}, {0: 2, 1: 0, 2: 1}):
+        it = {"expr": f"map_wires({name}, {wm})", "n": 3, "status": "regression", "detail": "numeric regression block (not an obligation)", "kinds": ["map-consumers"]}
+        items.append(it)
+        try:
+            op = mk()
+            M0 = np.asarray(qp.matrix(op, wire_order=[0, 1, 2]))
+            inv = [k for k, _ in sorted(wm.items(), key=lambda kv: kv[1])]          # new position -> old wire
+            R = np.asarray(qp.matrix(op, wire_order=inv))                           # relabelling = reading the old operator in the permuted order
+            m = qp.map_wires(op, wm)
+            views = {"matrix": lambda: qp.matrix(m, wire_order=[0, 1, 2]),
+                     "simplify": lambda: qp.matrix(qp.simplify(m), wire_order=[0, 1, 2]),
+                     "sparse_matrix": lambda: m.sparse_matrix(wire_order=[0, 1, 2]).toarray(),
+                     "pauli_rep": lambda: (m.pauli_rep.to_mat(wire_order=[0, 1, 2]) if m.pauli_rep is not None else R),
+                     "sum_on_top": lambda: qp.matrix(qp.simplify(qp.sum(m, m)), wire_order=[0, 1, 2]) / 2}
+            for vname, f in views.items():
+                try:
+                    V = np.asarray(f())
+                except (qp.operation.MatrixUndefinedError, qp.operation.SparseMatrixUndefinedError, NotImplementedError):
+                    continue
+                if V.shape != R.shape or not np.allclose(V, R, atol=1e-10):
+                    it["numeric_fail"] = {"what": f"map_wires then {vname}", "operator": repr(op)[:120], "wire_map": str(wm)}
+                    break
+        except Exception as e:
+            it["numeric_fail"] = {"what": f"raised {type(e).__name__}: {str(e)[:150]}"}
 json.dump(oblig, open(req["outdir"] + "/obligations.json", "w"))
 print(json.dumps({"items": items}))
